@@ -555,6 +555,11 @@ func c17(r *Report) {
 		// zero bytes of a failed read is the same for every exchange)
 		errorsReturnedRule(r, r.W.Fn("", "newID"), false)
 		contextIDFreshRule(r)
+		freshContextUnmarkedRule(r)
+		// an export can be encoded: the JSON form of a body comes from encoding/json (hand-written
+		// JSON that is invalid for some content makes the whole export fail after ExportAndReset has
+		// already emptied the log)
+		marshalThroughJSONRule(r)
 		// what an export returns is a function of the ring and the map alone: no branch of
 		// Export / ExportAndReset looks at other logger state (a counter or a generation
 		// number kept beside the list can disagree with it)
@@ -857,4 +862,33 @@ func partialStatusRule(r *Report) {
 		}
 	}
 	r.Decide("table", "(*M/messageview.MessageView).SnapshotResponse: the content coding is dropped exactly for 204 and 206", ok, "evaluated for 200, 204, 206, 304", detail+": a response without a complete body is run through the decoder named in its Content-Encoding, the decoder fails on the empty or partial input, the response is not recorded and its entry stays pending", first.Pos())
+}
+
+// marshalThroughJSONRule: every MarshalJSON method of package har returns what
+// json.Marshal produced. Shared by C17.R5 and C16.R4.
+func marshalThroughJSONRule(r *Report) {
+	w := r.W
+	n := 0
+	for _, f := range w.Funcs("har") {
+		if f.Name() != "MarshalJSON" || f.Signature.Recv() == nil {
+			continue
+		}
+		n++
+		r.Touch(f)
+		ok := true
+		for _, ret := range returns(f) {
+			for _, rv := range retVals(ret, 0) {
+				for _, l := range resolveAll(rv) {
+					if isNilConst(l) {
+						continue
+					}
+					if !isExtractOfCall(l, "encoding/json.Marshal") && !isCallValue(l, "encoding/json.Marshal") {
+						ok = false
+					}
+				}
+			}
+		}
+		r.Decide("flow", fnName(f)+" returns the output of json.Marshal", ok, "every returned byte slice is a json.Marshal result", "the JSON is assembled by hand: a string that needs JSON escaping (a Content-Type with a non-UTF-8 or control byte) makes the entry, and with it the whole export, invalid", f.Pos())
+	}
+	r.Decide("flow", "package har has MarshalJSON methods", n >= 1, fmt.Sprintf("%d methods", n), "no MarshalJSON method found", token.NoPos)
 }
